@@ -202,6 +202,20 @@ def run(tier):
         ctxs = [rnd.randrange(len(CTX)) for _ in edges]
         jobs.append((cli, ("rnd", s), n, edges, ctxs, True, rnd.randint(1, 3), seeds_fixed[: max(4, nseeds // 2)], rnd.random() < 0.5,
                      tuple(i for i in range(n) if rnd.random() < 0.35)))
+    # long dependency chains (and chains with a shortcut) under several name orders: depth limits and stack-based walks show only there
+    for length in (5, 6, 8, 12):
+        for order in ("head-first", "leaf-first", "shuffled"):
+            idxs = list(range(length))
+            if order == "leaf-first":
+                idxs = idxs[::-1]
+            elif order == "shuffled":
+                rnd.shuffle(idxs)
+            # idxs[k] depends on idxs[k+1]; node names are N0..N(length-1) in name order
+            edges = [(idxs[k], idxs[k + 1]) for k in range(length - 1)]
+            for extra in ((), ((idxs[0], idxs[2]),), ((idxs[0], idxs[length - 1]), (idxs[1], idxs[length - 2]))):
+                e2 = edges + [e for e in extra if e not in edges]
+                jobs.append((cli, ("chain", length, order, len(extra)), length, e2, [rnd.randrange(len(CTX)) for _ in e2], False, rnd.randint(1, 2),
+                             seeds_fixed[: max(4, nseeds // 2)], False, ()))
     res = common.pmap(run_case, jobs, chunksize=2)
     total_orders = 0
     multi = 0
